@@ -119,7 +119,7 @@ func verifHTML(rng *rand.Rand, nodes []verifNode, c *verifCounter, inA bool, inH
 		case "br":
 			b.WriteString("<br>")
 		case "long":
-			b.WriteString(strings.Repeat("w", 20+rng.Intn(120)) + " ")
+			b.WriteString(verifLongWord(c, 20+rng.Intn(120)) + " ")
 		case "wide":
 			/* nothing but white space, wider than a line, between explicit line breaks */
 			n := 40 + rng.Intn(120)
@@ -212,7 +212,7 @@ func verifMarkdown(nodes []verifNode, c *verifCounter, inA bool, inline bool, qu
 			t, id := c.target(), c.token()
 			b.WriteString(fmt.Sprintf("![%s](%s) ", id, t))
 		case "long":
-			b.WriteString(strings.Repeat("w", 100) + " ")
+			b.WriteString(verifLongWord(c, 100) + " ")
 		case "wide":
 			if inline {
 				return "", false
@@ -294,7 +294,7 @@ func verifGemtext(nodes []verifNode, c *verifCounter) (string, bool) {
 			}
 			lines = append(lines, []string{"> ", "* ", "# ", "## ", "### ", ">"}[len(lines)%6]+text)
 		case "long":
-			lines = append(lines, strings.Repeat("w", 130))
+			lines = append(lines, verifLongWord(c, 130))
 		case "wide":
 			lines = append(lines, strings.Repeat(" ", 120), "```", strings.Repeat(" ", 110), "```")
 		case "pre":
@@ -334,7 +334,7 @@ func verifPlain(nodes []verifNode, c *verifCounter) (string, bool) {
 			   underlined and numbered is the label, and that is what the number has to open */
 			words = append(words, t+[]string{"", "_(x)", ".", ",", "?", ";p=1)", "!", ":", "/a_(b)_c"}[c.link%9])
 		case "long":
-			words = append(words, strings.Repeat("w", 150))
+			words = append(words, verifLongWord(c, 150))
 		case "br":
 			words = append(words, "\n        ")
 		case "wide":
@@ -705,7 +705,7 @@ func TestVerifMarkup(t *testing.T) {
 				sel = append(sel, link)
 			}
 			widths := []int{80, 44, 30}
-			if strings.Contains(real.text, "<pre") || strings.Contains(real.text, "wwwwwwww") || strings.Contains(real.text, "```") {
+			if strings.Contains(real.text, "<pre") || strings.Contains(real.text, "wwwwwwww") || strings.Contains(real.text, "漢漢漢漢") || strings.Contains(real.text, "한w한w") || strings.Contains(real.text, "```") {
 				/* hard wrapping may cut a token in two: read the numbers at widths where it does not */
 				widths = []int{220, 160}
 			}
@@ -812,4 +812,16 @@ func verifUnderlinedRuns(rendered string) []string {
 		runs = append(runs, cur.String())
 	}
 	return runs
+}
+
+/* a word longer than most lines: Latin letters, or characters a terminal draws two columns wide (the renderers
+   count characters, so a line of `width` of them is what "fits" means), or both in turns */
+func verifLongWord(c *verifCounter, n int) string {
+	switch (c.doc + c.link + c.tok) % 3 {
+	case 1:
+		return strings.Repeat("漢", n)
+	case 2:
+		return strings.Repeat("한w", n/2+1)
+	}
+	return strings.Repeat("w", n)
 }
